@@ -201,26 +201,27 @@ Proof.
   destruct (wait_one_step _ _ _ H) as (o & st & E & _). unfold wg_solo, solo. cbn. eauto.
 Qed.
 
-(* ---------------------------------------------------------------- IR listing vs. machines
-   every site of the listing regenerated from the source is a program counter of the machine
-   (via wg_site / wgo_site) and carries the operation the machine's micro-step performs *)
+(* ---------------------------------------------------------------- IR vs. machines: sites
+   every site of the IR regenerated from the source is a program counter of the machine (via
+   wg_site / wgo_site) and carries the operation the machine's micro-step performs; that the
+   machines are the denotation of the IR is WGDenote.denote_current / denote_pinned *)
 Lemma hand_prog_sites :
   hand_site_ops =
-  [ (wg_site (CAdd 0) A0, [OAtomic ALoad "state"]);
-    (wg_site (CAdd 0) (A1 0 0 0), [OAtomic ACAS "state"]);
-    (wg_site (CAdd 0) (A2 0 0), [OClose]);
-    (wg_site CWait W0, [OAtomic ALoad "state"]);
-    (wg_site CCount C0, [OAtomic ALoad "state"]) ]%string.
+  [ (wg_site (CAdd 0) A0, [KAtomic ALoad "state"]);
+    (wg_site (CAdd 0) (A1 0 0 0), [KAtomic ACAS "state"]);
+    (wg_site (CAdd 0) (A2 0 0), [KClose]);
+    (wg_site CWait W0, [KAtomic ALoad "state"]);
+    (wg_site CCount C0, [KAtomic ALoad "state"]) ]%string.
 Proof. reflexivity. Qed.
 
 Lemma hand_prog_orig_sites :
   hand_site_ops_orig =
-  [ (wgo_site (CAdd 0) OA0, [OAtomic AAdd "count"]);
-    (wgo_site (CAdd 0) (OA1 0), [OAtomic ASwap "wChan"]);
-    (wgo_site (CAdd 0) (OA2 0 0), [OClose]);
-    (wgo_site (CAdd 0) (OA3 0 0), [OAtomic ACAS "wChan"]);
-    (wgo_site (CAdd 0) (OA4 0 0), [OClose]);
-    (wgo_site CWait OW0, [OAtomic ALoad "count"]);
-    (wgo_site CWait (OW1 0), [OAtomic ALoad "wChan"]);
-    (wgo_site CCount OC0, [OAtomic ALoad "count"]) ]%string.
+  [ (wgo_site (CAdd 0) OA0, [KAtomic AAdd "count"]);
+    (wgo_site (CAdd 0) (OA1 0), [KAtomic ASwap "wChan"]);
+    (wgo_site (CAdd 0) (OA2 0 0), [KClose]);
+    (wgo_site (CAdd 0) (OA3 0), [KAtomic ACAS "wChan"]);
+    (wgo_site (CAdd 0) (OA4 0), [KClose]);
+    (wgo_site CWait OW0, [KAtomic ALoad "count"]);
+    (wgo_site CWait (OW1 0), [KAtomic ALoad "wChan"]);
+    (wgo_site CCount OC0, [KAtomic ALoad "count"]) ]%string.
 Proof. reflexivity. Qed.
